@@ -190,6 +190,65 @@ def real_final_text(text, key):
     return casbin.Enforcer._get_expression(m["m"][key].value, {}).expr.strip()
 
 
+# ------------------------------------------------------------------------------ mixed definition suffixes
+def stratum_mixed_suffix(chk):
+    """an EnforceContext may combine ANY request definition with ANY policy definition (r with p2, r2 with p, r3
+    with p2 ...): the matcher then mentions two different suffixes.  For all 9 combinations over suffixes '', 2, 3
+    and three layouts: (a) SPEC - the equality matcher allows exactly the stored triples; (b) Python's tokenizer on
+    the repository's pipeline output = py_lex of the modelled pipeline = the translated tokens."""
+    import casbin
+    from casbin.model import Model
+    sfx = ["", "2", "3"]
+    combos = [(a, b) for a in sfx for b in sfx]
+    layouts = ["{r}.sub == {p}.sub && {r}.obj == {p}.obj && {r}.act == {p}.act",
+               "{r}.sub=={p}.sub&&{r}.obj=={p}.obj&&{r}.act=={p}.act",
+               "( {r}.sub == {p}.sub )&&  {r}.obj=={p}.obj && ! ({r}.act != {p}.act)"]
+    n = 0
+    for li, lay in enumerate(layouts):
+        keys = {}
+        L = ["[request_definition]"] + [f"r{x} = sub, obj, act" for x in sfx]
+        L += ["[policy_definition]"] + [f"p{x} = sub, obj, act" for x in sfx]
+        L += ["[policy_effect]", "e = some(where (p.eft == allow))", "[matchers]"]
+        for i, (a, b) in enumerate(combos):
+            k = "m" + ("" if i == 0 else str(i + 1))
+            keys[(a, b)] = k
+            L.append(f"{k} = " + lay.format(r="r" + a, p="p" + b))
+        text = "\n".join(L) + "\n"
+        m = Model()
+        m.load_model_from_text(text)
+        e = casbin.Enforcer(m)
+        for b in sfx:
+            e.add_named_policy("p" + b, "alice", "data" + (b or "1"), "read")
+        for (a, b), k in keys.items():
+            n += 1
+            chk.count(("mixed-suffix", li, a, b))
+            ctx = e.new_enforce_context("2")
+            ctx.rtype, ctx.ptype, ctx.etype, ctx.mtype = "r" + a, "p" + b, "e", k
+            case = dict(stratum="mixed-suffix", model_text=text, context=dict(rtype="r" + a, ptype="p" + b, etype="e", mtype=k),
+                        policy={"p" + x: [["alice", "data" + (x or "1"), "read"]] for x in sfx})
+            for req, want in ((["alice", "data" + (b or "1"), "read"], True), (["alice", "data" + (b or "1"), "write"], False),
+                              (["bob", "data" + (b or "1"), "read"], False)):
+                try:
+                    got = bool(e.enforce(ctx, *req))
+                except Exception as exc:  # noqa
+                    got = "raise:" + type(exc).__name__
+                if got != want:
+                    chk.spec_fail(dict(case, request=req), got, want,
+                                  "a matcher combining request definition r%s with policy definition p%s does not decide by "
+                                  "its expression" % (a, b))
+                    break
+            v = lay.format(r="r" + a, p="p" + b)
+            try:
+                real = real_python_tokens(casbin.Enforcer._get_expression(m["m"][k].value, {}).expr.strip())
+            except Exception as exc:  # noqa
+                real = ["EXC", type(exc).__name__]
+            r3 = chk.oracle.query([(3, [v])])[0] if chk.oracle else None
+            if r3 is not None and [real] != r3:
+                chk.disagree(dict(case, matcher=v), real, r3,
+                             where="mixed suffixes: py_lex (modelled pipeline) differs from Python's tokenizer on the real pipeline output")
+    chk.extra["mixed_suffix_cases"] = n
+
+
 # ------------------------------------------------------------------------------ run
 def observe_case(c):
     sh, ast, subs, reqs, text = case_parts(c)
@@ -409,6 +468,7 @@ def run(chk, n_asts, maxdepth, vm_n, nonconst_n):
                           "Python's tokenizer on the pipeline output of a continued/commented matcher does not yield map tr "
                           "of the Casbin tokens (layout changed the expression)")
     chk.extra["token_level_cases_multiline"] = n_multi
+    stratum_mixed_suffix(chk)
     # the hypotheses of C02_pipeline_tokens(_ast) hold on the generated cases (wf_tokens, admissible), and
     # Gallina's render agrees with the harness renderer
     hyp = [c for c in tok_cases if c.get("gaps")]
